@@ -148,6 +148,13 @@ def scenarios(tier: str) -> tuple[list[C07Scenario], list[C07Scenario]]:
                 grid.append(C07Scenario(handlers=handlers, lifecycle='one_by_one', user=user, settings=settings,
                                         holds=holds, horizon=t0 + 20.0, gap=gap, nf=nf,
                                         delays=False, early_user=False, time_dev=False))
+                if nf >= 1 and de > 2.0:
+                    # the object's worker retires (idle_timeout 2 s) while the echo of its own patch is still outstanding:
+                    # the barrier (5 s) outlives the worker and has to hold for its successor's first event as well
+                    short_idle = dict(settings, queueing__idle_timeout=2.0)
+                    grid.append(C07Scenario(handlers=handlers, lifecycle='one_by_one', user=user, settings=short_idle,
+                                            holds=holds, horizon=t0 + 20.0, gap=gap, nf=nf, idle=2.0,
+                                            delays=False, early_user=False, time_dev=False))
                 if nf >= 1 and (df, de) in ((0.0, 2.0), (0.5, 4.5), (2.0, 5.5), (0.0, 8.0), (2.0, 2.0)):
                     # the raw-event handler writes through its patch on every event: a patch filled in by a low-level handler during
                     # the barrier must not let the change handlers through on the stale view
